@@ -164,3 +164,42 @@ impl<B: StarkField> ElementHasher for MixHasher<B> {
         ByteDigest::new(mix([4, 4, 2, 2, 1, 1, 3, 3], E::elements_as_bytes(elements)))
     }
 }
+
+// ROW-HASH RULE (shared specification for prover and verifier, property C28)
+// ================================================================================================
+
+/// Checks that the recorded calls `first ..` are exactly the documented row-digest rule for a row
+/// whose element bytes are `row_bytes` (`elem_bytes` per element) and partition size `p`:
+/// one `hash_elements(row)` when `p == row_len`, otherwise `hash_elements` of each chunk of `p`
+/// elements in order followed by one `merge_many` of the chunk digests. Returns the index after the
+/// last consumed call and the resulting digest bytes, or None if the calls deviate.
+pub fn rowhash_spec(first: usize, row_bytes: &[u8], elem_bytes: usize, p: usize) -> Option<(usize, [u8; DN])> {
+    let row_len = row_bytes.len() / elem_bytes;
+    if p == row_len {
+        let c = call(first);
+        if c.kind != K_HASH_ELEMENTS || c.n != row_len || c.head != head_of(row_bytes) {
+            return None;
+        }
+        return Some((first + 1, c.out));
+    }
+    let chunks = (row_len + p - 1) / p;
+    let mut outs = [[0u8; DN]; 8];
+    let mut i = 0;
+    while i < chunks {
+        let lo = i * p;
+        let hi = if lo + p < row_len { lo + p } else { row_len };
+        let c = call(first + i);
+        if c.kind != K_HASH_ELEMENTS || c.n != hi - lo || c.head != head_of(&row_bytes[lo * elem_bytes..hi * elem_bytes]) {
+            return None;
+        }
+        if i < 8 {
+            outs[i] = c.out;
+        }
+        i += 1;
+    }
+    let m = call(first + chunks);
+    if m.kind != K_MERGE_MANY || m.n != chunks || m.a != outs[0] || (chunks > 1 && m.b != outs[1]) {
+        return None;
+    }
+    Some((first + chunks + 1, m.out))
+}
